@@ -12,7 +12,6 @@ import (
 	"strconv"
 	"strings"
 	"sync"
-	"testing/synctest"
 	"time"
 
 	"github.com/pion/stun/v3"
@@ -208,7 +207,7 @@ func (sw *soloWorld) signalRemote(j int) {
 		panic(err)
 	}
 	_ = sw.x.agent.AddRemoteCandidate(c)
-	synctest.Wait()
+	settle()
 }
 
 func (sw *soloWorld) startX() {
@@ -221,7 +220,7 @@ func (sw *soloWorld) startX() {
 	if err != nil {
 		panic(err)
 	}
-	synctest.Wait()
+	settle()
 	sw.cmu.Lock()
 	sw.x.contact = sw.contact
 	sw.cmu.Unlock()
@@ -233,14 +232,14 @@ func (sw *soloWorld) startX() {
 func (sw *soloWorld) tick() {
 	sw.x.ticks++
 	sw.x.contact()
-	synctest.Wait()
+	settle()
 }
 
 func (sw *soloWorld) Close() {
 	if err := sw.x.agent.Close(); err != nil {
 		sw.problem("", "Close returned %v", err)
 	}
-	synctest.Wait()
+	settle()
 }
 
 // ---------------------------------------------------------------- scripted peer messages
